@@ -86,11 +86,21 @@ def build_layer(name, env, n_limit=3):
         return W.FlattenObservation(env)
     if name == "TransformObservation":
         return W.TransformObservation(env, OF, Box(-jnp.inf, jnp.inf, shape=(3,)))
-    if name == "ClipReward":
-        return W.ClipReward(env, RW_MIN, RW_MAX)
+    if name in CLIP_REWARD_ARGS:
+        return W.ClipReward(env, *CLIP_REWARD_ARGS[name])
     if name == "TransformReward":
         return W.TransformReward(env, RF)
     raise KeyError(name)
+
+
+# configurations outside the all-pairs enumeration: arguments that are legitimate but easy to mishandle in a constructor (a bound of exactly 0)
+EXTRA_LAYERS = {
+    "ClipReward[min=0]": dict(act="any"),
+    "ClipReward[max=0]": dict(act="any"),
+}
+LAYER_INFO = dict(LAYERS, **EXTRA_LAYERS)
+# what the builder HANDS TO THE CONSTRUCTOR of each ClipReward configuration: the reference clips to these, whatever the constructed object stores
+CLIP_REWARD_ARGS = {"ClipReward": (RW_MIN, RW_MAX), "ClipReward[min=0]": (0.0, RW_MAX), "ClipReward[max=0]": (RW_MIN, 0)}
 
 
 class StackError(Exception):
@@ -103,7 +113,7 @@ def applicable(spec, kind):
     obs_box2 = True   # current observation is a bounded 2-vector box
     act_bounded = act_box
     for name in spec:
-        L = LAYERS[name]
+        L = LAYER_INFO[name]
         if L["act"] == "box" and not act_box:
             return False
         if name == "RescaleAction" and not act_bounded:
@@ -202,8 +212,8 @@ class Ref:
         o = self.o
         k = 0
         for name in self.spec:
-            if name == "ClipReward":
-                mn, mx = self.clip_reward[k]
+            if name in CLIP_REWARD_ARGS:
+                mn, mx = (Fraction(float(x)) for x in CLIP_REWARD_ARGS[name])      # the constructor's arguments (not the stored attributes)
                 k += 1
                 r = o.ite(o.lt(r, mn), mn, o.ite(o.gt(r, mx), mx, r))
             elif name == "TransformReward":
